@@ -1021,7 +1021,9 @@ def chk_dagtraverser(K, e, e2, tree, nodes, zoo_nodes, coefmap):
     desc = f"DAGTraverser{sorted((c.__name__, k) for c, k in reg.items())}"
     for compress in (True, False):
         dt = cls(compress=compress)
-        for tag in (1, 2, 1):
+        # keyword values incl. several FALSY ones that differ from each other and from the default (0, None, "", ()):
+        # the memoisation must keep them apart just like the truthy ones
+        for tag in (1, 2, 0, None, "", 1, (), 0, None):
             exp = run(lambda: expected(e, tag))
             real = run(lambda: dt(e, tag=tag))
             if not K.judge("C19/DAGTraverser/table", f"{desc}(e, tag={tag}), compress={compress}", real, exp, e, counter="dagtraverser_checks"):
